@@ -20,7 +20,7 @@ def _floors(ctx, tag, n):
     floors = {
         "Formulas": n, "Valid": n * 6 // 10, "Invalid": n // 20, "InvalidEvaluated": n // 20, "Judged": n * 6 // 10,
         "WithUnicode": n // 4, "WithNegation": n // 2, "LargeShapeFormulas": n // 40,
-        "LongFormulas": 10 + min(40, n // 600) // 2, "LongOverLimit": 6, "LongUnderLimit": 4, "FormatErrors": 6,
+        "LongFormulas": 10 + min(40, n // 600) // 2, "LongOverLimit": 6, "LongUnderLimit": 4,
         "BigFormulas": 13, "TermRequests": 400, "BadUTF8Terms": 5, "ParseRequests": n // 4, "ParseErrors": 10,
         "TclineRequests": n // 4, "CtxRequests": n // 8, "AvoValidCodepoints": 100000,
         "ParseJudged": n // 2, "CtxFormulas": n // 40,
